@@ -150,6 +150,10 @@ func forkAndExecInChild(r *Runner, argv0 *byte, argv, env []*byte, workdir, host
 	// Pass 1 & pass 2 assigns fds for child process
 	// Pass 1: fd[i] < i => nextfd
 	if pipe < nextfd {
+		// Avoid fd rewrite
+		for execFile > 0 && nextfd == int(execFile) {
+			nextfd++
+		}
 		_, _, err1 = syscall.RawSyscall(syscall.SYS_DUP3, uintptr(pipe), uintptr(nextfd), syscall.O_CLOEXEC)
 		if err1 != 0 {
 			childExitError(pipe, LocDup3, err1)
